@@ -749,6 +749,11 @@ history!(c05_g_final_k3, prefix [A1], 3 of [evb(CNOTAR, 1, 1), evb(CNOTAR, 1, 2)
     vcover!(m.n_final >= 2, "two final votes are cast");
     vcover!(m.n_nf >= 1 && m.n_sf >= 1, "both fallback votes are cast");
 });
+// certificates arriving before the blocks they name, two competing blocks in slot 1
+history!(c05_g_certfirst_k2, prefix [], 2 of [evb(CNOTAR, 1, 1), evb(CNOTAR, 1, 2), A1, B1], |m| {
+    vcover!(m.n_final >= 1, "a final vote is cast for a block whose certificate arrived first");
+    vcover!(m.n_notar >= 1 && m.n_final == 0 && m.cert[1] != 0, "a block is notarized while only the other block's certificate is there: no final vote");
+});
 // after the final vote: the slot is retired
 history!(c05_g_retired_k2, prefix [A1, evb(CNOTAR, 1, 1)], 2 of [evb(S2N, 1, 2), ev(S2S, 1), ev(TIMEOUT, 2), ev(INVALID, 1), B1, evb(CNOTAR, 1, 1), ev(CFINAL, 1)], |m| {
     vcover!(m.n_final >= 1, "a final vote is cast");
